@@ -25,7 +25,7 @@ def run(ctx):
         "header must be validated to a safe alphabet by the schema validator or pass through a YAML quoting function.  Not decided: "
         "value-level losslessness of repr/csv/YAML scalar typing (library semantics), 1e4-row scale.")
     ctx.trusted += ["CFG construction of pdxsa/flow.py (exception edges to handlers)", "yaml.safe_dump/json.dumps produce correctly quoted YAML scalars"]
-    for k, v in RULES.items():
+    for k, v in list(RULES.items()) + list(RULES_EXTRA.items()):
         ctx.rule(k, v)
     mod = ctx.program.module("pydrex.io")
     I = Interp(ctx.program)
@@ -36,6 +36,143 @@ def run(ctx):
     siblings(ctx, mod, fns, I)
     substitution(ctx, mod, fns)
     yaml_emission(ctx, mod, fns, I)
+    validator_table(ctx, I)
+    cell_parser(ctx, I)
+    reader_binding(ctx, mod, fns)
+
+
+RULES_EXTRA = {
+    "C16.validator": "the schema validator accepts the valid base schemas and rejects every single-fault corruption of them (finite table: missing key, no fields, "
+                     "non-identifier name, unknown type, numeric/complex field without fill, delimiter equal to / contained in the missing marker)",
+    "C16.cell-parser": "_parse_scsv_cell: the missing marker (after stripping) yields the typed fill (NaN for the 'NaN' fill), booleans go through the boolean parser, "
+                       "everything else is the type applied to the stripped text",
+    "C16.reader-binding": "read_scsv parses column k with the type, missing marker and fill of schema field k (same order), taken from the validated schema",
+}
+
+
+def validator_table(ctx, I):
+    import copy
+    from ..interp import RaiseSig
+    dotted = "pydrex.io._validate_scsv_schema"
+    loc = defloc(ctx, dotted)
+    f = I.resolve(dotted)
+    base = {"delimiter": ",", "missing": "-", "fields": [
+        {"name": "a", "type": "string", "fill": "", "unit": "m"}, {"name": "b"}, {"name": "c", "type": "integer", "fill": "9"},
+        {"name": "d", "type": "float", "fill": "NaN"}, {"name": "e", "type": "boolean"}, {"name": "g", "type": "complex", "fill": "NaN"}]}
+    def run(schema):
+        try:
+            r = I.call(f, (schema,))
+            return bool(r) if isinstance(r, bool) else r
+        except RaiseSig as r_:
+            return "raise:" + r_.exc.typename
+    good = {"base": base, "one field": {"delimiter": ";", "missing": "NA", "fields": [{"name": "x_1"}]},
+            "tab delimiter": {"delimiter": "\t", "missing": "", "fields": [{"name": "x", "type": "float", "fill": 0}]}}
+    for name, sc in good.items():
+        r = run(copy.deepcopy(sc))
+        ctx.ob("C16.validator", f"valid:{name}", r is True, f"validator returned {r!r} for a valid schema", loc)
+    faults = {}
+    for k in ("delimiter", "missing", "fields"):
+        s_ = copy.deepcopy(base); del s_[k]; faults[f"missing key {k}"] = s_
+    s_ = copy.deepcopy(base); s_["fields"] = []; faults["no fields"] = s_
+    s_ = copy.deepcopy(base); s_["fields"][1]["name"] = "bad name"; faults["non-identifier name"] = s_
+    s_ = copy.deepcopy(base); s_["fields"][0]["name"] = "1abc"; faults["name starting with a digit"] = s_
+    s_ = copy.deepcopy(base); s_["fields"][0]["type"] = "text"; faults["unknown type"] = s_
+    for i_, t_ in ((2, "integer"), (3, "float"), (5, "complex")):
+        s_ = copy.deepcopy(base); del s_["fields"][i_]["fill"]; faults[f"{t_} field without fill"] = s_
+    s_ = copy.deepcopy(base); s_["missing"] = ","; faults["delimiter equals missing"] = s_
+    s_ = copy.deepcopy(base); s_["missing"] = "-,"; faults["delimiter contained in missing"] = s_
+    s_ = copy.deepcopy(base); s_["delimiter"] = "-"; faults["missing equals delimiter (changed delimiter)"] = s_
+    for name, sc in faults.items():
+        r = run(sc)
+        ctx.ob("C16.validator", f"fault:{name}", r is False, f"validator returned {r!r} for a schema with the fault '{name}' (must be False)", loc)
+    ctx.floor("C16.validator", 15)
+
+
+def cell_parser(ctx, I):
+    from ..interp import RaiseSig
+    from ..values import Native
+    from .. import alg
+    dotted = "pydrex.io._parse_scsv_cell"
+    loc = defloc(ctx, dotted)
+    f = I.resolve(dotted)
+    calls = []
+
+    def mk(name):
+        def fn(I_, x):
+            calls.append((name, x))
+            return ("typed", name, x if isinstance(x, str) else repr(x))
+        nat = Native(name, fn)
+        return nat
+    class T:  # a stand-in type object with a __qualname__
+        pass
+    for tname in ("float", "int", "str", "complex"):
+        ty = type(tname, (), {})
+        rec = I.np.call_external  # noqa: F841
+        from ..values import Record
+        tv = Record(None, {"__qualname__": tname}, label=tname)
+        tv.native_methods["__call__"] = mk(tname)
+        fobj = Native(tname, lambda I_, x, n_=tname: ("typed", n_, x if isinstance(x, str) else repr(x)))
+        # use a callable record exposing __qualname__
+        fv = CallableType(tname)
+        try:
+            r1 = I.call(f, (fv, " 12 ", "-", "7"))
+            r2 = I.call(f, (fv, " - ", "-", "7"))
+            r3 = I.call(f, (fv, "-", "-", "NaN"))
+        except RaiseSig as r_:
+            ctx.ob("C16.cell-parser", tname, False, f"raises {r_.exc.typename}", loc)
+            continue
+        ok = r1 == ("typed", tname, "12") and r2 == ("typed", tname, "7") and isinstance(r3, tuple) and r3[:2] == ("typed", tname) and "nan" in str(r3[2]).lower()
+        ctx.ob("C16.cell-parser", tname, ok, f"data -> {r1!r}; missing marker -> {r2!r}; missing with NaN fill -> {r3!r}", loc)
+    fvb = CallableType("bool")
+    try:
+        rs = [I.call(f, (fvb, s_, "-", None)) for s_ in ("True", "yes", "0", "false")]
+        ctx.ob("C16.cell-parser", "bool", rs == [True, True, False, False], f"boolean cells parsed as {rs}", loc)
+    except RaiseSig as r_:
+        ctx.ob("C16.cell-parser", "bool", False, f"raises {r_.exc.typename}", loc)
+    ctx.floor("C16.cell-parser", 5)
+
+
+class CallableType:
+    """Stand-in for a Python type handed to _parse_scsv_cell: callable, with a __qualname__."""
+
+    def __init__(self, name):
+        self.name = name
+
+    def key(self):
+        return ("type", self.name)
+
+
+def reader_binding(ctx, mod, fns):
+    fn = fns["read_scsv"]
+    src = ast.unparse(fn)
+    parts = [c for c in ast.walk(fn) if isinstance(c, ast.Call) and (flow.dotted(c.func) or "").split(".")[-1] == "partial"
+             and c.args and isinstance(c.args[0], ast.Name) and c.args[0].id == "_parse_scsv_cell"]
+    ok = bool(parts)
+    detail = ""
+    for p in parts:
+        kw = {k.arg: k.value for k in p.keywords}
+        ms, fv = kw.get("missingstr"), kw.get("fillval")
+        tvar = p.args[1] if len(p.args) > 1 else None
+        okp = isinstance(ms, ast.Name) and isinstance(fv, ast.Name) and isinstance(tvar, ast.Name)
+        if okp:
+            assigns = {t.id: a.value for a in ast.walk(fn) if isinstance(a, ast.Assign) for t in a.targets if isinstance(t, ast.Name)}
+            okp = ms.id in assigns and ast.unparse(assigns[ms.id]).replace('"', "'") == "schema['missing']"
+            # the comprehension zips (types, fills, columns) in this order and unpacks into (type var, fill var, column)
+            comps = [g for lc in ast.walk(fn) if isinstance(lc, (ast.ListComp, ast.GeneratorExp)) for g in lc.generators
+                     if isinstance(g.target, ast.Tuple) and [getattr(e, "id", None) for e in g.target.elts][:2] == [tvar.id, fv.id]]
+            okp = okp and bool(comps)
+            for g in comps:
+                it = g.iter
+                if isinstance(it, ast.Call) and flow.dotted(it.func) == "zip" and len(it.args) >= 3:
+                    a0, a1 = it.args[0], it.args[1]
+                    d0 = ast.unparse(assigns.get(getattr(a0, "id", ""), a0))
+                    d1 = ast.unparse(assigns.get(getattr(a1, "id", ""), a1))
+                    okp = okp and "SCSV_TYPEMAP" in d0 and "type" in d0 and "fill" in d1 and "schema['fields']" in d0.replace('"', "'") and "schema['fields']" in d1.replace('"', "'")
+                    detail = f"types from `{d0[:60]}`, fills from `{d1[:60]}`"
+                else:
+                    okp = False
+        ok = ok and okp
+    ctx.ob("C16.reader-binding", "read_scsv", ok, detail or "could not establish that column k is parsed with the type/fill of schema field k", L(mod, fn, ctx))
 
 
 RULES = {
